@@ -9,29 +9,29 @@ import (
 
 // Operation kinds. Parameters are documented per kind (A..D of wx.Op; E is packed into K's companion where needed).
 const (
-	OpNone           uint8 = iota
-	OpNewEntity            // A=set
-	OpNewEntityWith        // A=set, B=value index
-	OpBuilderNew           // A=set, B=relation comp (ci, -1 = none configured), C=target slot (-1 zero, -2 no target argument), D=value index (0 = IDs only)
-	OpNewBatch             // A=set, B=count, C=target slot (-1 zero, -2 none), D=value index; relation = first relation comp of the set
-	OpNewBatchQ            // same, Q variant
-	OpRemoveEntity         // A=slot
-	OpAdd                  // A=slot, B=comp
-	OpRemove               // A=slot, B=comp
-	OpExchange             // A=slot, B=add comp, C=rem comp
-	OpAssign               // A=slot, B=comp, C=value index
-	OpSet                  // A=slot, B=comp, C=value index
-	OpWriteGet             // A=slot, B=comp, C=value index
-	OpWriteQuery           // A=slot, B=comp, C=value index
-	OpRelSet               // A=slot, B=relation comp, C=target slot
-	OpRelExchange          // A=slot, B=add comp (-1 none), C=rem comp (-1 none), D=target slot; relation comp: see relFor
-	OpBuilderAdd           // A=slot, B=set, C=target slot (-2 none), D=value index
-	OpBatchRemoveEnt       // A=filter ref
-	OpBatchAdd             // A=filter ref, B=comp
-	OpBatchRemove          // A=filter ref, B=comp
-	OpBatchExchange        // A=filter ref, B=add comp, C=rem comp
-	OpBatchSetRel          // A=filter ref, B=relation comp, C=target slot
-	OpRelExchangeBatch     // A=filter ref, B=add comp (-1), C=rem comp (-1), D=target slot
+	OpNone             uint8 = iota
+	OpNewEntity              // A=set
+	OpNewEntityWith          // A=set, B=value index
+	OpBuilderNew             // A=set, B=relation comp (ci, -1 = none configured), C=target slot (-1 zero, -2 no target argument), D=value index (0 = IDs only)
+	OpNewBatch               // A=set, B=count, C=target slot (-1 zero, -2 none), D=value index; relation = first relation comp of the set
+	OpNewBatchQ              // same, Q variant
+	OpRemoveEntity           // A=slot
+	OpAdd                    // A=slot, B=comp
+	OpRemove                 // A=slot, B=comp
+	OpExchange               // A=slot, B=add comp, C=rem comp
+	OpAssign                 // A=slot, B=comp, C=value index
+	OpSet                    // A=slot, B=comp, C=value index
+	OpWriteGet               // A=slot, B=comp, C=value index
+	OpWriteQuery             // A=slot, B=comp, C=value index
+	OpRelSet                 // A=slot, B=relation comp, C=target slot
+	OpRelExchange            // A=slot, B=add comp (-1 none), C=rem comp (-1 none), D=target slot; relation comp: see relFor
+	OpBuilderAdd             // A=slot, B=set, C=target slot (-2 none), D=value index
+	OpBatchRemoveEnt         // A=filter ref
+	OpBatchAdd               // A=filter ref, B=comp
+	OpBatchRemove            // A=filter ref, B=comp
+	OpBatchExchange          // A=filter ref, B=add comp, C=rem comp
+	OpBatchSetRel            // A=filter ref, B=relation comp, C=target slot
+	OpRelExchangeBatch       // A=filter ref, B=add comp (-1), C=rem comp (-1), D=target slot
 	OpBatchAddQ
 	OpBatchRemoveQ
 	OpBatchExchangeQ
@@ -40,12 +40,12 @@ const (
 	OpRegister   // A=filter ref
 	OpUnregister // A=registration index
 	OpReset
-	OpRelGet        // A=slot, B=comp (illegal classes)
-	OpAddTwo        // A=slot, B=comp, C=comp (multi-component add; duplicate IDs when B==C)
-	OpRemoveTwo     // A=slot, B=comp, C=comp
-	OpAddNone       // A=slot: World.Add(e) without components
-	OpRegisterTwice // A=registration index: Register(&cached)
-	OpNewEntityDup  // A=comp: NewEntity(c, c)
+	OpRelGet          // A=slot, B=comp (illegal classes)
+	OpAddTwo          // A=slot, B=comp, C=comp (multi-component add; duplicate IDs when B==C)
+	OpRemoveTwo       // A=slot, B=comp, C=comp
+	OpAddNone         // A=slot: World.Add(e) without components
+	OpRegisterTwice   // A=registration index: Register(&cached)
+	OpNewEntityDup    // A=comp: NewEntity(c, c)
 	OpRelExchangeNone // A=slot, D=target: Relations.Exchange without components
 	OpNewBatchZero    // A=set, B=count (0 or -1)
 	numOps
